@@ -105,11 +105,33 @@ Lemma okstep_lframe sc e st F c c' E stL b E' stL' F' :
   okstep sc e st F c c' E stL b E' stL' F' -> wframe bound c c' E stL E' stL' /\ F_new F F' c c'.
 Proof. intros (_ & Hf & _ & Hn & _). split; assumption. Qed.
 
-Lemma good_stop_dec o : {good_stop o} + {~ good_stop o}.
-Proof. destruct o; cbn; auto. Qed.
+Notation xpost := (exit_post pv bound).
 
-Definition stop_post (E : env) (stL : state) (b : block) (st' : sstate) : Prop :=
-  exists ev stL', ExecS E b stL (RErr ev stL') /\ SyltSem.trace st' = s_out stL'.
+Lemma okstep_exit {A} ctx sc e st st1 F F1 c c0 c1 E stL b1 E1 stL1 b2 (r : SyltSem.res A) st' :
+  okstep sc e st1 F c c0 E stL b1 E1 stL1 F1 -> rel sc e st E stL ->
+  xpost ctx sc e c0 c1 E1 stL1 b2 r st' -> c <= c0 -> c0 <= c1 ->
+  xpost ctx sc e c c1 E stL (b1 ++ b2) r st'.
+Proof.
+  intros Hok Hrel Hx Ha Hb.
+  eapply (exit_pre pv bound ctx sc sc e e st st1); [exact Hok | exact Hrel | apply sext_refl | apply incl_refl | exact Hx | exact Ha | exact Hb].
+Qed.
+
+Lemma okstep_exit' {A} ctx sc e st st1 F F1 c c' E stL b1 E1 stL1 b2 (r : SyltSem.res A) st' :
+  okstep sc e st1 F c c' E stL b1 E1 stL1 F1 -> rel sc e st E stL ->
+  xpost ctx sc e c c' E1 stL1 b2 r st' -> xpost ctx sc e c c' E stL (b1 ++ b2) r st'.
+Proof.
+  intros Hok Hrel Hx.
+  eapply (exit_pre_gen pv bound ctx sc sc e e st st1); [exact Hok | exact Hrel | apply sext_refl | apply incl_refl | exact Hx | | | |]; lia.
+Qed.
+
+Lemma xpost_widen {A} ctx sc e c c' a b E stL bl (r : SyltSem.res A) st' :
+  xpost ctx sc e c c' E stL bl r st' -> a <= c -> c' <= b -> xpost ctx sc e a b E stL bl r st'.
+Proof.
+  intros (rl & Hx & Hok) Ha Hb. exists rl. split; [exact Hx|].
+  destruct r as [x|o|[| |v]]; cbn [exit_ok] in *; try contradiction; try exact Hok.
+  - destruct Hok as (E' & stL' & -> & Hr & Hk). exists E', stL'. split; [reflexivity | split; [exact Hr | eapply xkeep_widen; eassumption]].
+  - destruct Hok as (E' & stL' & -> & Hr & Hk). exists E', stL'. split; [reflexivity | split; [exact Hr | eapply xkeep_widen; eassumption]].
+Qed.
 
 (* two sub-expressions evaluated one after the other (binary operators, <=>) *)
 Lemma eval_two n g k x1 x2 ctx c code_a va c0 code_b vb c1 c' e st sc l E stL F :
@@ -128,11 +150,9 @@ Lemma eval_two n g k x1 x2 ctx c code_a va c0 code_b vb c1 c' e st sc l E stL F 
               okstep sc e st2 F c c1 E stL (b1 ++ b2) E2 stL2 F2 /\ ctx_ok l2 F2 E2 c1 c' /\
               (1 <= count_of u va -> denotes F2 E2 stL2 (aexpand l2 va) va_) /\
               (1 <= count_of u vb -> denotes F2 E2 stL2 (aexpand l2 vb) vb_)
-        | (SyltSem.RStop o, st2) => good_stop o -> stop_post E stL (b1 ++ b2) st2
-        | (SyltSem.RAbrupt _, _) => True
+        | (r2, st2) => interesting r2 -> xpost ctx sc e c c1 E stL (b1 ++ b2) r2 st2
         end
-    | (SyltSem.RStop o, st1) => good_stop o -> stop_post E stL (b1 ++ b2) st1
-    | (SyltSem.RAbrupt _, _) => True
+    | (r1, st1) => interesting r1 -> xpost ctx sc e c c1 E stL (b1 ++ b2) r1 st1
     end.
 Proof.
   intros IH Ha Hb Hfa Hfb Hua Hub Hc1 Hctx Hrel.
@@ -142,39 +162,51 @@ Proof.
     by (intros l0; apply (L_expr_all pv u g k x2 ctx c0 code_b vb c1 sc l0 Hb Hfb)).
   destruct (Hsb l1') as (b2' & l2' & Hs2' & Hvb1 & Hvb2). pose proof Hs2' as (_ & Hc01 & _).
   assert (Hctxa : ctx_ok l F E c c0) by (eapply ctx_sub; [exact Hctx | lia | lia]).
-  destruct (SyltSem.eval n e x1 st) as [[va_|o|cc] st1] eqn:He1.
-  - destruct (IH g k x1 ctx c code_a va c0 e st _ st1 sc l E stL F He1 Ha Hfa Hua Hctxa Hrel I)
-      as (b1 & l1 & Hs1 & _ & _ & E1 & stL1 & F1 & Hok1 & Hd1).
-    pose proof Hok1 as (Hx1 & _ & Hrel1 & _).
-    assert (Hctx1 : ctx_ok l1 F1 E1 c0 c') by (eapply ctx_after; eassumption).
-    assert (Hctxb : ctx_ok l1 F1 E1 c0 c1) by (eapply ctx_sub; [exact Hctx1 | lia | lia]).
-    destruct (SyltSem.eval n e x2 st1) as [[vb_|o|cc] st2] eqn:He2.
-    + destruct (IH g k x2 ctx c0 code_b vb c1 e st1 _ st2 sc l1 E1 stL1 F1 He2 Hb Hfb Hub Hctxb Hrel1 I)
-        as (b2 & l2 & Hs2 & _ & _ & E2 & stL2 & F2 & Hok2 & Hd2).
-      exists b1, l1, b2, l2. splits; try assumption.
-      exists E2, stL2, F2. splits.
-      * eapply okstep_trans; [exact Hok1 | exact Hok2 | lia | lia].
-      * eapply ctx_after; eassumption.
-      * intros Hcv. replace (aexpand l2 va) with (aexpand l1 va).
-        -- eapply denotes_step; [exact (Hd1 Hcv) | exact Hok2 | apply (cx_F _ _ _ _ _ _ Hctxb)].
-        -- unfold aexpand. destruct Hs2 as (_ & _ & Hfr2 & _). rewrite Hfr2 by lia. reflexivity.
-      * exact Hd2.
-    + destruct (good_stop_dec o) as [Hg|Hng].
-      * destruct (IH g k x2 ctx c0 code_b vb c1 e st1 _ st2 sc l1 E1 stL1 F1 He2 Hb Hfb Hub Hctxb Hrel1 Hg)
-          as (b2 & l2 & Hs2 & _ & _ & ev & stL2 & Hx2 & Htr).
-        exists b1, l1, b2, l2. splits; try assumption. intros _.
-        exists ev, stL2. split; [eapply ExecS_app; eassumption | exact Htr].
-      * destruct (Hsb l1) as (b2 & l2 & Hs2 & _ & _).
-        exists b1, l1, b2, l2. splits; try assumption. intros Hg. contradiction.
-    + destruct (Hsb l1) as (b2 & l2 & Hs2 & _ & _). exists b1, l1, b2, l2. splits; try assumption. exact I.
-  - destruct (good_stop_dec o) as [Hg|Hng].
-    + destruct (IH g k x1 ctx c code_a va c0 e st _ st1 sc l E stL F He1 Ha Hfa Hua Hctxa Hrel Hg)
-        as (b1 & l1 & Hs1 & _ & _ & ev & stL1 & Hx1 & Htr).
+  assert (Hfail1 : forall r1 st1, SyltSem.eval n e x1 st = (r1, st1) -> (forall v, r1 <> SyltSem.RVal v) ->
+             exists b1 l1 b2 l2, cshape u l code_a b1 l1 c c0 /\ cshape u l1 code_b b2 l2 c0 c1 /\
+               (interesting r1 -> xpost ctx sc e c c1 E stL (b1 ++ b2) r1 st1)).
+  { intros r1 st1 He1 Hnv. destruct (interesting_dec r1) as [Hg|Hng].
+    - destruct (IH g k x1 ctx c code_a va c0 e st _ st1 sc l E stL F He1 Ha Hfa Hua Hctxa Hrel Hg)
+        as (b1 & l1 & Hs1 & _ & _ & Hp1).
       destruct (Hsb l1) as (b2 & l2 & Hs2 & _ & _).
       exists b1, l1, b2, l2. splits; try assumption. intros _.
-      exists ev, stL1. split; [apply ExecS_app_stop; [exact Hx1 | intros []] | exact Htr].
-    + exists b1', l1', b2', l2'. splits; try assumption. intros Hg. contradiction.
-  - exists b1', l1', b2', l2'. splits; try assumption. exact I.
+      destruct r1 as [v| |]; [exfalso; eapply Hnv; reflexivity | |]; (eapply exit_app; [exact Hp1 | lia]).
+    - exists b1', l1', b2', l2'. splits; try assumption. intros Hg. contradiction. }
+  destruct (SyltSem.eval n e x1 st) as [r1 st1] eqn:He1.
+  destruct r1 as [va_|o|cc].
+  2,3: destruct (Hfail1 _ _ eq_refl ltac:(intros v; discriminate)) as (b1 & l1 & b2 & l2 & H1 & H2 & H3);
+       exists b1, l1, b2, l2; splits; assumption.
+  destruct (IH g k x1 ctx c code_a va c0 e st _ st1 sc l E stL F He1 Ha Hfa Hua Hctxa Hrel I)
+    as (b1 & l1 & Hs1 & _ & _ & E1 & stL1 & F1 & Hok1 & Hd1).
+  pose proof Hok1 as (Hx1 & _ & Hrel1 & _).
+  assert (Hctx1 : ctx_ok l1 F1 E1 c0 c') by (eapply ctx_after; eassumption).
+  assert (Hctxb : ctx_ok l1 F1 E1 c0 c1) by (eapply ctx_sub; [exact Hctx1 | lia | lia]).
+  destruct (SyltSem.eval n e x2 st1) as [r2 st2] eqn:He2.
+  destruct r2 as [vb_|o|cc].
+  - destruct (IH g k x2 ctx c0 code_b vb c1 e st1 _ st2 sc l1 E1 stL1 F1 He2 Hb Hfb Hub Hctxb Hrel1 I)
+      as (b2 & l2 & Hs2 & _ & _ & E2 & stL2 & F2 & Hok2 & Hd2).
+    exists b1, l1, b2, l2. splits; try assumption.
+    exists E2, stL2, F2. splits.
+    + eapply okstep_trans; [exact Hok1 | exact Hok2 | lia | lia].
+    + eapply ctx_after; eassumption.
+    + intros Hcv. replace (aexpand l2 va) with (aexpand l1 va).
+      * eapply denotes_step; [exact (Hd1 Hcv) | exact Hok2 | apply (cx_F _ _ _ _ _ _ Hctxb)].
+      * unfold aexpand. destruct Hs2 as (_ & _ & Hfr2 & _). rewrite Hfr2 by lia. reflexivity.
+    + exact Hd2.
+  - destruct (interesting_dec (@SyltSem.RStop sval o)) as [Hg|Hng].
+    + destruct (IH g k x2 ctx c0 code_b vb c1 e st1 _ st2 sc l1 E1 stL1 F1 He2 Hb Hfb Hub Hctxb Hrel1 Hg)
+        as (b2 & l2 & Hs2 & _ & _ & Hp2).
+      exists b1, l1, b2, l2. splits; try assumption. intros _.
+      eapply okstep_exit; [exact Hok1 | exact Hrel | exact Hp2 | lia | lia].
+    + destruct (Hsb l1) as (b2 & l2 & Hs2 & _ & _).
+      exists b1, l1, b2, l2. splits; try assumption. intros Hg. contradiction.
+  - destruct (interesting_dec (@SyltSem.RAbrupt sval cc)) as [Hg|Hng].
+    + destruct (IH g k x2 ctx c0 code_b vb c1 e st1 _ st2 sc l1 E1 stL1 F1 He2 Hb Hfb Hub Hctxb Hrel1 Hg)
+        as (b2 & l2 & Hs2 & _ & _ & Hp2).
+      exists b1, l1, b2, l2. splits; try assumption. intros _.
+      eapply okstep_exit; [exact Hok1 | exact Hrel | exact Hp2 | lia | lia].
+    + destruct (Hsb l1) as (b2 & l2 & Hs2 & _ & _).
+      exists b1, l1, b2, l2. splits; try assumption. intros Hg. contradiction.
 Qed.
 
 (* the conditional tail of and/or:  if <cond> then <code_b>; V<t> = <vb> end,
@@ -193,8 +225,7 @@ Lemma sc_branch n g k x2 ctx cb0 code_b vb cb1 c c' e st sc l E stL F t p cond (
     | (SyltSem.RVal sv_, st2) =>
         exists stL', okstep sc e st2 F c c' E stL bl E stL' (t :: F) /\
                      denotes (t :: F) E stL' (EVar (fmt_var t)) sv_
-    | (SyltSem.RStop o, st2) => good_stop o -> stop_post E stL bl st2
-    | (SyltSem.RAbrupt _, _) => True
+    | (r2, st2) => interesting r2 -> xpost ctx sc e c c' E stL bl r2 st2
     end.
 Proof.
   intros IH Hb Hfb Hub Hct Hcvb Hbc Hc0 Hc1 Ht Htb Hctx Hrel Hp Hcell Hlt Hdc.
@@ -217,6 +248,22 @@ Proof.
   assert (Hpal : (p < s_ncell stL)%positive) by (eapply wf_alloc; eassumption).
   assert (Hcellc : get_cell stc p = VBool lit) by (rewrite <- Hcell; apply Hxc; exact Hpal).
   assert (Hoc : s_out stc = s_out stL) by apply Hxc.
+  assert (Hfail : forall r2 st2, SyltSem.eval n e x2 st = (r2, st2) -> (forall v, r2 <> SyltSem.RVal v) ->
+            go = true ->
+            exists bl l', cshape u l (IIf cond :: (code_b ++ [IAssign t vb]) ++ [IEnd]) bl l' c c' /\ alut_get l' t = None /\
+              (interesting r2 -> xpost ctx sc e c c' E stL bl r2 st2)).
+  { intros r2 st2 He2 Hnv ->. destruct (interesting_dec r2) as [Hg|Hng].
+    - destruct (IH g k x2 ctx cb0 code_b vb cb1 e st _ st2 sc l E stc F He2 Hb Hfb Hub Hctx Hrelc Hg)
+        as (b2 & l2 & Hs2 & _ & _ & Hp2).
+      destruct (Hmk b2 l2 Hs2) as (Hshape & Hlt2).
+      eexists _, _. split; [exact Hshape|]. split; [exact Hlt2|]. intros _.
+      assert (Hp2' : xpost ctx sc e c c' E stc (b2 ++ fst (agen_one u l2 (IAssign t vb))) r2 st2).
+      { destruct r2 as [v| |]; [exfalso; eapply Hnv; reflexivity | |];
+          (eapply xpost_widen; [eapply exit_app; [exact Hp2 | apply N.le_refl] | lia | lia]). }
+      eapply (exit_if pv bound ctx sc e c c' E stL (aexpand l cond) _ [] (VBool true) stc); [exact Hwf | exact Hevc | exact Hxc | | exact Hp2'].
+      cbn [truthy]. apply nolabel_app; [apply Hs2 | apply agen_one_nolabel; reflexivity].
+    - destruct (Hsb l) as (b2 & l2 & Hs2 & _). destruct (Hmk b2 l2 Hs2) as (Hshape & Hlt2).
+      eexists _, _. split; [exact Hshape|]. split; [exact Hlt2|]. intros Hg. contradiction. }
   destruct go.
   - (* the branch is taken *)
     destruct (SyltSem.eval n e x2 st) as [[svb|o|cc] st2] eqn:He2.
@@ -239,19 +286,8 @@ Proof.
         split; [|split; [split; [apply incl_tl, incl_refl | intros t' [<-|Ht']; [right; exact Ht | left; exact Ht']] | apply keep_refl]].
         eapply (rel_restrict pv bound sc e st e st2 E E2 stc stL3); [exact Hrelc | exact Hrel3 | eapply keep_trans; eassumption | apply (wr_ncell _ _ _ _ _ _ _ Hf23)].
       * eapply denotes_local; [left; reflexivity | exact Hp | rewrite Hc3; exact Hv3].
-    + destruct (good_stop_dec o) as [Hg|Hng].
-      * destruct (IH g k x2 ctx cb0 code_b vb cb1 e st _ st2 sc l E stc F He2 Hb Hfb Hub Hctx Hrelc Hg)
-          as (b2 & l2 & Hs2 & _ & _ & ev & stL2 & Hx2 & Htr).
-        destruct (Hmk b2 l2 Hs2) as (Hshape & Hlt2).
-        eexists _, _. split; [exact Hshape|]. split; [exact Hlt2|]. intros _.
-        exists ev, stL2. split; [|exact Htr].
-        apply XS_stop; [|intros []]. eapply Exec_if_err; [exact Hevc|]. cbn [truthy].
-        apply ExecBlock_of_ExecS; [apply ExecS_app_stop; [exact Hx2 | intros []] | | intros []].
-        apply nolabel_app; [apply Hs2 | apply agen_one_nolabel; reflexivity].
-      * destruct (Hsb l) as (b2 & l2 & Hs2 & _). destruct (Hmk b2 l2 Hs2) as (Hshape & Hlt2).
-        eexists _, _. split; [exact Hshape|]. split; [exact Hlt2|]. intros Hg. contradiction.
-    + destruct (Hsb l) as (b2 & l2 & Hs2 & _). destruct (Hmk b2 l2 Hs2) as (Hshape & Hlt2).
-      eexists _, _. split; [exact Hshape|]. split; [exact Hlt2 | exact I].
+    + apply (Hfail (SyltSem.RStop o) st2 eq_refl); [intros v; discriminate | reflexivity].
+    + apply (Hfail (SyltSem.RAbrupt cc) st2 eq_refl); [intros v; discriminate | reflexivity].
   - (* the branch is skipped *)
     destruct (Hsb l) as (b2 & l2 & Hs2 & _). destruct (Hmk b2 l2 Hs2) as (Hshape & Hlt2).
     eexists _, _. split; [exact Hshape|]. split; [exact Hlt2|].
@@ -282,8 +318,7 @@ Lemma sc_tail n g k x2 ctx c0 code_b vb c1 c c' e st1 sc l1 E1 stL1 F1 t fl mid 
     match (if sc_go mid ba then SyltSem.eval n e x2 st1 else (SyltSem.RVal (SV (Values.VBool lit)), st1)) with
     | (SyltSem.RVal sv_, st2) =>
         exists E' stL' F', okstep sc e st2 F1 c c' E1 stL1 bl E' stL' F' /\ denotes F' E' stL' (EVar (fmt_var t)) sv_
-    | (SyltSem.RStop o, st2) => good_stop o -> stop_post E1 stL1 bl st2
-    | (SyltSem.RAbrupt _, _) => True
+    | (r2, st2) => interesting r2 -> xpost ctx sc e c c' E1 stL1 bl r2 st2
     end.
 Proof.
   intros IH Hm0 Hfr Hub Hct Hcfl Hcvb Hbc Hc0 Htr' Hflr' Htfl Hmid Hvalt Hctx1 Hrel1 Hd1.
@@ -377,9 +412,8 @@ Proof.
   rewrite app_assoc.
   destruct (if sc_go mid ba then SyltSem.eval n e x2 st1 else (SyltSem.RVal (SV (Values.VBool lit)), st1)) as [[sv_|o|cc] st2].
   - destruct Hmatch as (stL6 & Hokb & Hdb). exists E5, stL6, (t :: F5). split; [eapply okstep_trans'; eassumption | exact Hdb].
-  - intros Hg. destruct (Hmatch Hg) as (ev & stL6 & Hx6 & Htrace). exists ev, stL6. split; [|exact Htrace].
-    destruct Hpre as (Hxpre & _). eapply ExecS_app; eassumption.
-  - exact I.
+  - intros Hg. eapply okstep_exit'; [exact Hpre | exact Hrel1 | exact (Hmatch Hg)].
+  - intros Hg. eapply okstep_exit'; [exact Hpre | exact Hrel1 | exact (Hmatch Hg)].
 Qed.
 
 Lemma expr_binop_unfold g op a b sp ctx :
@@ -470,7 +504,7 @@ Proof.
     unfold SyltSem.bind at 1 in Hev. rewrite (smapM_one (SyltSem.eval (S n') e) a) in Hev.
     destruct (SyltSem.eval (S n') e a st) as [ra st1] eqn:Hy.
     assert (Hia : interesting ra).
-    { destruct ra; cbn in Hev; [exact I | inversion Hev; subst; exact Hint | inversion Hev; subst; destruct Hint]. }
+    { destruct ra; cbn in Hev; [exact I | inversion Hev; subst; exact Hint | inversion Hev; subst; exact Hint]. }
     (* structure and usage counts *)
     destruct (L_expr_all pv u (S g') k a ctx (c + 1) code_a va ca sc l Ha Hfr) as (b0 & l0 & (_ & Hca & _) & Hva1 & Hva2).
     apply ucovers_cons in Hu as [_ Hu]. apply ucovers_app in Hu as [Hua Huc].
@@ -494,7 +528,7 @@ Proof.
     { change (ICopy c pv :: code_a ++ [ICall ca c [va]]) with ((ICopy c pv :: code_a) ++ [ICall ca c [va]]).
       eapply cshape_app; [exact Hs01|]. apply (cshape_plain u l1 (ICall ca c [va]) ca (ca + 1)); [lia | reflexivity | reflexivity | reflexivity]. }
     eexists _, _. split; [exact Hshape|]. split; [lia|]. split; [lia|].
-    destruct ra as [y|o|cc]; cbn in Hev; [| | destruct Hia].
+    destruct ra as [y|o|cc]; cbn in Hev.
     + (* the argument has a value *)
       destruct Hpa as (E2 & stL2 & F2 & Hok2 & Hda). specialize (Hda Hcva).
       pose proof Hok2 as (_ & _ & Hrel2 & _).
@@ -513,10 +547,11 @@ Proof.
       cbn [eval_post]. exists E3, stL3, F3. split; [|intros _; exact Hd3].
       eapply okstep_trans; [exact Hok12 | exact Hok3 | lia | lia].
     + (* the argument stops: a failed assertion inside it *)
-      inversion Hev; subst r st'. clear Hev.
-      destruct Hpa as (ev & stL2 & Hx2 & Htr).
-      cbn [eval_post]. exists ev, stL2. split; [|exact Htr].
-      apply ExecS_app_stop; [|intros []]. eapply ExecS_app; [exact Hx1|]. exact Hx2.
+      inversion Hev; subst r st'. clear Hev. cbn [eval_post] in *.
+      eapply exit_app; [eapply okstep_exit; [exact Hok1 | exact Hrel | exact Hpa | lia | lia] | lia].
+    + (* break / continue inside the argument *)
+      inversion Hev; subst r st'. clear Hev. cbn [eval_post] in *.
+      eapply exit_app; [eapply okstep_exit; [exact Hok1 | exact Hrel | exact Hpa | lia | lia] | lia].
   - (* EBinOp *)
     frag_split Hfrag.
     destruct (value_op op) eqn:Hvop.
@@ -541,14 +576,10 @@ Proof.
       rewrite (seval_binop_unfold n e op x1 x2 sp Hvop) in Hev.
       unfold SyltSem.bind at 1 in Hev.
       destruct (SyltSem.eval n e x1 st) as [[va_|o|cc] st1].
-      2: { inversion Hev; subst. destruct (Hmatch Hint) as (ev & stL' & Hx & Htr).
-           exists ev, stL'. split; [|exact Htr]. rewrite app_assoc. apply ExecS_app_stop; [exact Hx | intros []]. }
-      2: { inversion Hev; subst. destruct Hint. }
+      2,3: (inversion Hev; subst; cbn [eval_post]; rewrite app_assoc; eapply exit_app; [exact (Hmatch Hint) | lia]).
       unfold SyltSem.bind at 1 in Hev.
       destruct (SyltSem.eval n e x2 st1) as [[vb_|o|cc] st2].
-      2: { inversion Hev; subst. destruct (Hmatch Hint) as (ev & stL' & Hx & Htr).
-           exists ev, stL'. split; [|exact Htr]. rewrite app_assoc. apply ExecS_app_stop; [exact Hx | intros []]. }
-      2: { inversion Hev; subst. destruct Hint. }
+      2,3: (inversion Hev; subst; cbn [eval_post]; rewrite app_assoc; eapply exit_app; [exact (Hmatch Hint) | lia]).
       destruct Hmatch as (E2 & stL2 & F2 & Hok2 & Hctx2 & Hda & Hdb). specialize (Hda Hcva). specialize (Hdb Hcvb).
       pose proof Hok2 as (_ & _ & Hrel2 & _).
       destruct (denotes_now _ _ _ _ _ Hda (r_wf _ _ _ _ _ _ _ Hrel2) (r_linv _ _ _ _ _ _ _ Hrel2)) as (lva & Hvva & _).
@@ -567,7 +598,7 @@ Proof.
         cbn [eval_post]. exists E3, stL3, F3. split; [|exact Hd3].
         rewrite app_assoc. eapply okstep_trans; [exact Hok2 | exact Hok3 | lia | lia].
       * inversion Hev; subst. apply binop_val_res in Hbv. apply stuckish_not_good in Hbv. contradiction.
-      * inversion Hev; subst. destruct Hint.
+      * apply binop_val_res in Hbv. destruct Hbv.
     + destruct op; try discriminate Hfrag; try discriminate Hvop.
       * (* <=> *)
         cbn [expression] in Hlow. mon Hlow. fresh_all. inj_code.
@@ -590,14 +621,10 @@ Proof.
         cbn [SyltSem.eval] in Hev.
         unfold SyltSem.bind at 1 in Hev.
         destruct (SyltSem.eval n e x1 st) as [[va_|o|cc] st1].
-        2: { inversion Hev; subst. destruct (Hmatch Hint) as (ev & stL' & Hx & Htr).
-             exists ev, stL'. split; [|exact Htr]. rewrite app_assoc. apply ExecS_app_stop; [exact Hx | intros []]. }
-        2: { inversion Hev; subst. destruct Hint. }
+        2,3: (inversion Hev; subst; cbn [eval_post]; rewrite app_assoc; eapply exit_app; [exact (Hmatch Hint) | lia]).
         unfold SyltSem.bind at 1 in Hev.
         destruct (SyltSem.eval n e x2 st1) as [[vb_|o|cc] st2].
-        2: { inversion Hev; subst. destruct (Hmatch Hint) as (ev & stL' & Hx & Htr).
-             exists ev, stL'. split; [|exact Htr]. rewrite app_assoc. apply ExecS_app_stop; [exact Hx | intros []]. }
-        2: { inversion Hev; subst. destruct Hint. }
+        2,3: (inversion Hev; subst; cbn [eval_post]; rewrite app_assoc; eapply exit_app; [exact (Hmatch Hint) | lia]).
         destruct Hmatch as (E2 & stL2 & F2 & Hok2 & Hctx2 & Hda & Hdb). specialize (Hda Hcva). specialize (Hdb Hcvb).
         pose proof Hok2 as (Hx2 & _ & Hrel2 & _).
         destruct (denotes_now _ _ _ _ _ Hda (r_wf _ _ _ _ _ _ _ Hrel2) (r_linv _ _ _ _ _ _ _ Hrel2)) as (lva & Hvva & _).
@@ -626,7 +653,7 @@ Proof.
            ++ intros _. eapply denotes_mono; [exact Hd3 | apply fut_cells_ext; [apply (r_wf _ _ _ _ _ _ _ Hrel3) | exact Hext] | apply incl_refl].
         -- inversion Hev; subst r st'. clear Hev.
            destruct Hass as (ev & stL4 & Hx4 & Htr).
-           cbn [eval_post]. exists ev, stL4. split; [|exact Htr].
+           cbn [eval_post]. exists (RErr ev stL4). split; [|cbn [exit_ok]; eauto].
            replace (b1 ++ b2 ++ fst (aiis u l2 c1 xe) ++ fst (agen_one u l3 (IAssert c1)))
              with (((b1 ++ b2) ++ fst (aiis u l2 c1 xe)) ++ fst (agen_one u l3 (IAssert c1))) by (rewrite <- !app_assoc; reflexivity).
            destruct Hok23 as (Hx23 & _). eapply ExecS_app; [exact Hx23 | exact Hx4].
@@ -649,14 +676,20 @@ Proof.
         assert (Hctxa : ctx_ok l F E c c0) by (eapply ctx_sub; [exact Hctx | lia | unfold t in *; lia]).
         cbn [SyltSem.eval] in Hev. unfold SyltSem.bind at 1 in Hev.
         destruct (SyltSem.eval n e x1 st) as [[va_|o|cc] st1] eqn:He1.
-        3: { inversion Hev; subst. destruct Hint. }
         2: { inversion Hev; subst.
              destruct (IH g k x1 ctx c code_a va c0 e st _ st' sc l E stL F He1 Hm Hfr0 Hua Hctxa Hrel Hint)
-               as (b1 & l1 & Hs1 & _ & _ & ev & stL1 & Hx1 & Htr).
+               as (b1 & l1 & Hs1 & _ & _ & Hp1).
              destruct (and_tail_shape u l1 t fl va code_b vb c0 c1 c (c1 + 1 + 1) Hsb) as (bl & l' & Hst); try (unfold t, fl; lia).
              eexists _, _. split; [eapply cshape_app'; [eapply cshape_widen; [exact Hs1 | lia | unfold t; lia] | exact Hst]|].
              split; [unfold t; lia|]. split; [unfold t; lia|].
-             exists ev, stL1. split; [apply ExecS_app_stop; [exact Hx1 | intros []] | exact Htr]. }
+             cbn [eval_post] in *. eapply exit_app; [exact Hp1 | unfold t; lia]. }
+        2: { inversion Hev; subst.
+             destruct (IH g k x1 ctx c code_a va c0 e st _ st' sc l E stL F He1 Hm Hfr0 Hua Hctxa Hrel Hint)
+               as (b1 & l1 & Hs1 & _ & _ & Hp1).
+             destruct (and_tail_shape u l1 t fl va code_b vb c0 c1 c (c1 + 1 + 1) Hsb) as (bl & l' & Hst); try (unfold t, fl; lia).
+             eexists _, _. split; [eapply cshape_app'; [eapply cshape_widen; [exact Hs1 | lia | unfold t; lia] | exact Hst]|].
+             split; [unfold t; lia|]. split; [unfold t; lia|].
+             cbn [eval_post] in *. eapply exit_app; [exact Hp1 | unfold t; lia]. }
         destruct (IH g k x1 ctx c code_a va c0 e st _ st1 sc l E stL F He1 Hm Hfr0 Hua Hctxa Hrel I)
           as (b1 & l1 & Hs1 & _ & _ & E1 & stL1 & F1 & Hok1 & Hd1). specialize (Hd1 Hcva).
         pose proof Hok1 as (_ & _ & Hrel1 & _).
@@ -680,13 +713,12 @@ Proof.
         assert (Hres : (if ba then SyltSem.eval n e x2 st1 else (SyltSem.RVal (SV (Values.VBool false)), st1)) = (r, st'))
           by (destruct ba; exact Hev).
         rewrite Hres in Hmatch.
-        destruct r as [sv_|o|cc]; [| |destruct Hint].
+        destruct r as [sv_|o|cc].
         -- destruct Hmatch as (E5 & stL5 & F5 & Hokb & Hdb).
            cbn [eval_post]. exists E5, stL5, F5. split; [eapply okstep_trans'; [eapply okstep_widen; [exact Hok1 | lia | unfold t in *; lia] | exact Hokb]|].
            intros _. unfold aexpand. rewrite Hlt'. exact Hdb.
-        -- destruct (Hmatch Hint) as (ev & stL5 & Hx5 & Htrace).
-           cbn [eval_post]. exists ev, stL5. split; [|exact Htrace].
-           destruct Hok1 as (Hx1 & _). eapply ExecS_app; eassumption.
+        -- cbn [eval_post]. eapply okstep_exit'; [eapply okstep_widen; [exact Hok1 | lia | unfold t in *; lia] | exact Hrel | exact (Hmatch Hint)].
+        -- cbn [eval_post]. eapply okstep_exit'; [eapply okstep_widen; [exact Hok1 | lia | unfold t in *; lia] | exact Hrel | exact (Hmatch Hint)].
       * (* or *)
         cbn [expression] in Hlow. mon Hlow. fresh_all. inj_code.
         destruct a as [code_a va]. destruct a0 as [code_b vb]. cbn [fst snd] in *.
@@ -706,14 +738,20 @@ Proof.
         assert (Hctxa : ctx_ok l F E c c0) by (eapply ctx_sub; [exact Hctx | lia | lia]).
         cbn [SyltSem.eval] in Hev. unfold SyltSem.bind at 1 in Hev.
         destruct (SyltSem.eval n e x1 st) as [[va_|o|cc] st1] eqn:He1.
-        3: { inversion Hev; subst. destruct Hint. }
         2: { inversion Hev; subst.
              destruct (IH g k x1 ctx c code_a va c0 e st _ st' sc l E stL F He1 Hm Hfr0 Hua Hctxa Hrel Hint)
-               as (b1 & l1 & Hs1 & _ & _ & ev & stL1 & Hx1 & Htr).
+               as (b1 & l1 & Hs1 & _ & _ & Hp1).
              destruct (or_tail_shape u l1 (c1 + 1) (c1 + 1 + 1) c1 va code_b vb c0 c1 c (c1 + 1 + 1 + 1) Hsb) as (bl & l' & Hst); try (lia).
              eexists _, _. split; [eapply cshape_app'; [eapply cshape_widen; [exact Hs1 | lia | lia] | exact Hst]|].
              split; [lia|]. split; [lia|].
-             exists ev, stL1. split; [apply ExecS_app_stop; [exact Hx1 | intros []] | exact Htr]. }
+             cbn [eval_post] in *. eapply exit_app; [exact Hp1 | lia]. }
+        2: { inversion Hev; subst.
+             destruct (IH g k x1 ctx c code_a va c0 e st _ st' sc l E stL F He1 Hm Hfr0 Hua Hctxa Hrel Hint)
+               as (b1 & l1 & Hs1 & _ & _ & Hp1).
+             destruct (or_tail_shape u l1 (c1 + 1) (c1 + 1 + 1) c1 va code_b vb c0 c1 c (c1 + 1 + 1 + 1) Hsb) as (bl & l' & Hst); try (lia).
+             eexists _, _. split; [eapply cshape_app'; [eapply cshape_widen; [exact Hs1 | lia | lia] | exact Hst]|].
+             split; [lia|]. split; [lia|].
+             cbn [eval_post] in *. eapply exit_app; [exact Hp1 | lia]. }
         destruct (IH g k x1 ctx c code_a va c0 e st _ st1 sc l E stL F He1 Hm Hfr0 Hua Hctxa Hrel I)
           as (b1 & l1 & Hs1 & _ & _ & E1 & stL1 & F1 & Hok1 & Hd1). specialize (Hd1 Hcva).
         pose proof Hok1 as (_ & _ & Hrel1 & _).
@@ -739,13 +777,12 @@ Proof.
         assert (Hres : (if negb ba then SyltSem.eval n e x2 st1 else (SyltSem.RVal (SV (Values.VBool true)), st1)) = (r, st'))
           by (destruct ba; exact Hev).
         rewrite Hres in Hmatch.
-        destruct r as [sv_|o|cc]; [| |destruct Hint].
+        destruct r as [sv_|o|cc].
         -- destruct Hmatch as (E5 & stL5 & F5 & Hokb & Hdb).
            cbn [eval_post]. exists E5, stL5, F5. split; [eapply okstep_trans'; [eapply okstep_widen; [exact Hok1 | lia | lia] | exact Hokb]|].
            intros _. unfold aexpand. rewrite Hlt'. exact Hdb.
-        -- destruct (Hmatch Hint) as (ev & stL5 & Hx5 & Htrace).
-           cbn [eval_post]. exists ev, stL5. split; [|exact Htrace].
-           destruct Hok1 as (Hx1 & _). eapply ExecS_app; eassumption.
+        -- cbn [eval_post]. eapply okstep_exit'; [eapply okstep_widen; [exact Hok1 | lia | lia] | exact Hrel | exact (Hmatch Hint)].
+        -- cbn [eval_post]. eapply okstep_exit'; [eapply okstep_widen; [exact Hok1 | lia | lia] | exact Hrel | exact (Hmatch Hint)].
   - (* EUniOp *)
     assert (Hcommon : forall c0 code_a va i (xf : expr -> expr),
                expression g x ctx c = Ok ((code_a, va), c0) -> code = code_a ++ [i] -> v = c0 -> c' = c0 + 1 ->
@@ -761,7 +798,7 @@ Proof.
                    | SyltSem.RAbrupt _ => False
                    end) ->
                exists (b : block) (l' : alut),
-                 cshape u l code b l' c c' /\ c <= v /\ v < c' /\ eval_post sc e F c c' E stL b l' v r st').
+                 cshape u l code b l' c c' /\ c <= v /\ v < c' /\ eval_post ctx sc e F c c' E stL b l' v r st').
     { intros c0 code_a va i xf Ha -> -> -> Hsimple Hgen Huse Hsem.
       apply ucovers_app in Hu as [Hua Hui].
       assert (Hcva : 1 <= count_of u va) by (eapply Hui; [left; reflexivity | exact Huse]).
@@ -774,13 +811,18 @@ Proof.
                           end) st = (r, st')) by (destruct op; exact Hev).
       clear Hev. unfold SyltSem.bind at 1 in Hev'.
       destruct (SyltSem.eval n e x st) as [[sva|o|cc] st1] eqn:He1.
-      3: { inversion Hev'; subst. destruct Hint. }
       2: { inversion Hev'; subst.
            destruct (IH g k x ctx c code_a va c0 e st _ st' sc l E stL F He1 Ha Hfrag Hua Hctxa Hrel Hint)
-             as (b1 & l1 & Hs1 & _ & _ & ev & stL1 & Hx1 & Htr).
+             as (b1 & l1 & Hs1 & _ & _ & Hp1).
            eexists _, _. split; [eapply cshape_app; [exact Hs1|]; apply (cshape_iis u l1 i c0 (xf (aexpand l1 va)) c0 (c0 + 1)); [lia | exact Hsimple | apply Hgen]|].
            split; [lia|]. split; [lia|].
-           exists ev, stL1. split; [apply ExecS_app_stop; [exact Hx1 | intros []] | exact Htr]. }
+           cbn [eval_post] in *. eapply exit_app; [exact Hp1 | lia]. }
+      2: { inversion Hev'; subst.
+           destruct (IH g k x ctx c code_a va c0 e st _ st' sc l E stL F He1 Ha Hfrag Hua Hctxa Hrel Hint)
+             as (b1 & l1 & Hs1 & _ & _ & Hp1).
+           eexists _, _. split; [eapply cshape_app; [exact Hs1|]; apply (cshape_iis u l1 i c0 (xf (aexpand l1 va)) c0 (c0 + 1)); [lia | exact Hsimple | apply Hgen]|].
+           split; [lia|]. split; [lia|].
+           cbn [eval_post] in *. eapply exit_app; [exact Hp1 | lia]. }
       destruct (IH g k x ctx c code_a va c0 e st _ st1 sc l E stL F He1 Ha Hfrag Hua Hctxa Hrel I)
         as (b1 & l1 & Hs1 & _ & _ & E1 & stL1 & F1 & Hok1 & Hd1). specialize (Hd1 Hcva).
       pose proof Hok1 as (_ & _ & Hrel1 & _).
